@@ -13,6 +13,7 @@ op tokens
   I                  conn.invalidate()
   F<p><k>            arm fault: p ∈ {u cursor, x execute, c commit, r rollback}, k ∈ {e, d}
                      (`Fue`, an unclassified error from cursor(), is rejected)
+  D                  clear armed faults that did not fire
   W<n>               n extra connections opened and returned
   N                  new Connection (engine.connect())
   G                  garbage-collect the Connection without close()
@@ -36,6 +37,7 @@ def parseOp (s : String) : Option Op :=
   | ['b'] => some .begin | ['n'] => some .beginNested
   | ['C'] => some .commit | ['R'] => some .rollback | ['X'] => some .close
   | ['q'] => some (.exec .sel) | ['I'] => some .invalidate
+  | ['D'] => some .disarm
   | ['N'] => some .connect | ['G'] => some .gc | ['A'] => some .autocommit
   | ['F', p, k] =>
     match (match p with | 'u' => some FPoint.cursor | 'x' => some .execute | 'c' => some .commit
@@ -88,7 +90,7 @@ def runOps : Bool → Conn → List Op → Option (List String)
   | _, _, [] => some []
   | gone, c, op :: ops =>
     let allowed := match op with
-      | .connect | .arm _ _ => true
+      | .connect | .arm _ _ | .disarm => true
       | _ => !gone
     let handleOk := match opHandle? op with
       | some h => decide (h < c.txns.length)
